@@ -63,14 +63,19 @@ def family(kinds, s):
     return T.Family(kinds, s)
 
 
-def check_graph(bvc, masks, nU, nV, algo, viol, where):
+def check_graph(bvc, masks, nU, nV, algo, viol, where, order="ascending"):
     adj = G.adjacency(masks, nV)
+    # the order in which the neighbours of a vertex are listed is not part of the graph: every listing must give a minimum cover
+    if order == "descending":
+        adj = [a[::-1] for a in adj]
+    elif order == "rotated":
+        adj = [a[1:] + a[:1] for a in adj]
     nedge = sum(len(a) for a in adj)
     try:
         cu, cv = bvc([np.array(a, dtype=np.int32) for a in adj] if where == "np" else adj, algo=algo)
     except Exception as e:
         cls = "edgeless" if nedge == 0 else "with-edges"
-        viol.append({"sig": f"C20:cover:exception:{cls}:{algo}:{type(e).__name__}",
+        viol.append({"sig": f"C20:cover:exception:{cls}:{algo}:{type(e).__name__}" + ("" if order == "ascending" else ":neighbours-not-ascending"),
                      "msg": f"bipartite_vertex_cover({adj}, algo={algo}) raised {e!r}"})
         return None
     # a table shorter than the vertex count leaves the trailing (isolated) vertices unselected: still a vertex set
@@ -103,6 +108,9 @@ def run_case(desc, seed):
             for algo in ALGOS:
                 s = check_graph(bvc, masks, nU, nV, algo, viol, "list")
                 sizes[s] = sizes.get(s, 0) + 1
+                for order in ("descending", "rotated"):
+                    if any(bin(m).count("1") > 1 for m in masks):
+                        check_graph(bvc, masks, nU, nV, algo, viol, "list", order)
             allv = 0
             for m in masks:
                 allv |= m
